@@ -15,6 +15,8 @@ theorem max_message_len_le_508 : generatedTables.maxLen ≤ limit := by decide
 theorem budget_port_is_widest : generatedTables.budgetPort = maxPort := by decide
 /-- datagrams of up to 1024 bytes are seen whole by the responder -/
 theorem recv_buffer_holds_1024 : wholeUpTo ≤ generatedTables.recvBuf := by decide
+/-- the sends answering a request are protected: an `OSError` of `sendto` does not leave the loop -/
+theorem send_errors_caught : generatedTables.catchesSend = true := by decide
 /-- the `except` clause keeps the loop going for everything the decoding raises -/
 theorem decode_errors_caught :
     generatedTables.catches .unicodeDecodeError = true ∧ generatedTables.catches .jsonDecodeError = true ∧
@@ -165,16 +167,18 @@ theorem batch_ok {α : Type} [DecidableEq α] (id version : Str) (description : 
 request: it decodes to a JSON object whose member `SECoP` is the string `discover`.  For every listener, every
 decoding function, every datagram (the first 1024 bytes count) — `hdict`: a decoded object is a `dict`, its
 keys are distinct. -/
-theorem answers_iff_discover {α : Type} (L : Listener) (decode : Bytes → Except Exc JTop) (dg : Bytes) (addr : α)
-    (hdict : ∀ items, decode (dg.take generatedTables.recvBuf) = .ok (.obj items) → (items.map (·.1)).Nodup) :
-    handleDatagram generatedTables L decode dg addr = .answered (sendAll generatedTables L (.peer addr))
+theorem answers_iff_discover {α : Type} (L : Listener) (decode : Bytes → Except Exc JTop) (sendOk : α → Bool)
+    (dg : Bytes) (addr : α)
+    (hdict : ∀ items, decode (dg.take generatedTables.recvBuf) = .ok (.obj items) → (items.map (·.1)).Nodup)
+    (hok : sendOk addr = true) :
+    handleDatagram generatedTables L decode sendOk dg addr = .answered (sendAll generatedTables L (.peer addr))
       ↔ IsRequest (decode (dg.take generatedTables.recvBuf)) := by
   rw [← isDiscover_iff _ hdict]
-  unfold handleDatagram afterDecode
+  unfold handleDatagram afterDecode answer
   cases h : decode (dg.take generatedTables.recvBuf) with
   | error e => simp only; split <;> simp
   | ok v =>
-    simp only [Except.ok.injEq, exists_eq_left']
+    simp only [Except.ok.injEq, exists_eq_left', hok, if_true]
     cases hv : isDiscover v <;> simp
 
 /-- a datagram of at most 1024 bytes is decoded whole -/
@@ -184,10 +188,11 @@ theorem small_datagram_seen_whole (dg : Bytes) (h : dg.length ≤ wholeUpTo) :
 
 /-- anything that is not a request is ignored or (if the decoding raises something the `except` clause does not
 name) ends the thread — it is never answered -/
-theorem non_request_not_answered {α : Type} (L : Listener) (decode : Bytes → Except Exc JTop) (dg : Bytes) (addr : α)
+theorem non_request_not_answered {α : Type} (L : Listener) (decode : Bytes → Except Exc JTop) (sendOk : α → Bool)
+    (dg : Bytes) (addr : α)
     (hdict : ∀ items, decode (dg.take generatedTables.recvBuf) = .ok (.obj items) → (items.map (·.1)).Nodup)
     (hn : ¬ IsRequest (decode (dg.take generatedTables.recvBuf))) :
-    ∀ sends, handleDatagram generatedTables L decode dg addr ≠ .answered sends := by
+    ∀ sends, handleDatagram generatedTables L decode sendOk dg addr ≠ .answered sends := by
   rw [← isDiscover_iff _ hdict] at hn
   unfold handleDatagram afterDecode
   intro sends
@@ -201,44 +206,63 @@ theorem non_request_not_answered {α : Type} (L : Listener) (decode : Bytes → 
 
 /-- No datagram ends the thread: whatever the bytes, the outcome is `answered` or `ignored`.
 `hexc`: the decoding raises nothing but UnicodeDecodeError, JSONDecodeError or another ValueError. -/
-theorem responder_total {α : Type} (L : Listener) (decode : Bytes → Except Exc JTop)
+theorem responder_total {α : Type} (L : Listener) (decode : Bytes → Except Exc JTop) (sendOk : α → Bool)
     (hexc : ∀ b e, decode b = .error e → e = .unicodeDecodeError ∨ e = .jsonDecodeError ∨ e = .valueError)
     (dg : Bytes) (addr : α) :
-    ∀ e, handleDatagram generatedTables L decode dg addr ≠ .died e := by
+    ∀ e, handleDatagram generatedTables L decode sendOk dg addr ≠ .died e := by
   intro e
-  unfold handleDatagram afterDecode
+  unfold handleDatagram afterDecode answer
   cases h : decode (dg.take generatedTables.recvBuf) with
   | error e' =>
     have hc : generatedTables.catches e' = true := by
       rcases hexc _ _ h with rfl | rfl | rfl <;> decide
     simp [hc]
-  | ok v => simp only; split <;> simp
+  | ok v =>
+    simp only [send_errors_caught, if_true]
+    split
+    · split <;> simp
+    · simp
+
+/-- A request from a sender that cannot be answered (`sendto` raises, e.g. source port 0) is not answered, sends
+nothing - and does not end the thread: the outcome is `unanswerable`, the loop goes on. -/
+theorem unreachable_sender_survived {α : Type} (L : Listener) (decode : Bytes → Except Exc JTop) (sendOk : α → Bool)
+    (dg : Bytes) (addr : α)
+    (hdict : ∀ items, decode (dg.take generatedTables.recvBuf) = .ok (.obj items) → (items.map (·.1)).Nodup)
+    (hreq : IsRequest (decode (dg.take generatedTables.recvBuf))) (hbad : sendOk addr = false) :
+    handleDatagram generatedTables L decode sendOk dg addr = .unanswerable := by
+  rw [← isDiscover_iff _ hdict] at hreq
+  obtain ⟨v, hv, hd⟩ := hreq
+  unfold handleDatagram afterDecode answer
+  rw [hv]
+  simp [hd, hbad, send_errors_caught]
 
 /-- the loop gives every datagram its own pass, whatever came before it -/
-theorem loop_never_stops {α : Type} (L : Listener) (decode : Bytes → Except Exc JTop)
+theorem loop_never_stops {α : Type} (L : Listener) (decode : Bytes → Except Exc JTop) (sendOk : α → Bool)
     (hexc : ∀ b e, decode b = .error e → e = .unicodeDecodeError ∨ e = .jsonDecodeError ∨ e = .valueError) :
-    ∀ dgs : List (Bytes × α), loop generatedTables L decode (eventsOf dgs) =
-      dgs.map (fun d => handleDatagram generatedTables L decode d.1 d.2)
+    ∀ dgs : List (Bytes × α), loop generatedTables L decode sendOk (eventsOf dgs) =
+      dgs.map (fun d => handleDatagram generatedTables L decode sendOk d.1 d.2)
   | [] => rfl
   | d :: rest => by
-    have ih := loop_never_stops L decode hexc rest
+    have ih := loop_never_stops L decode sendOk hexc rest
     unfold eventsOf at ih ⊢
     simp only [List.map_cons, loop]
-    have := responder_total L decode hexc d.1 d.2
+    have := responder_total L decode sendOk hexc d.1 d.2
     split
     · rename_i e he; exact absurd he (this e)
     · rw [ih]
 
-/-- … and keeps answering later requests: a request is answered wherever it stands in a sequence of datagrams -/
-theorem later_requests_answered {α : Type} (L : Listener) (decode : Bytes → Except Exc JTop)
+/-- … and keeps answering later requests: a request (from a sender that can be answered) is answered wherever it
+stands in a sequence of datagrams - whatever came before it, including requests from senders that cannot be
+answered (`sendOk` is arbitrary on the other datagrams) -/
+theorem later_requests_answered {α : Type} (L : Listener) (decode : Bytes → Except Exc JTop) (sendOk : α → Bool)
     (hexc : ∀ b e, decode b = .error e → e = .unicodeDecodeError ∨ e = .jsonDecodeError ∨ e = .valueError)
     (pre post : List (Bytes × α)) (dg : Bytes) (addr : α)
     (hdict : ∀ items, decode (dg.take generatedTables.recvBuf) = .ok (.obj items) → (items.map (·.1)).Nodup)
-    (hreq : IsRequest (decode (dg.take generatedTables.recvBuf))) :
-    (loop generatedTables L decode (eventsOf (pre ++ (dg, addr) :: post)))[pre.length]? =
+    (hreq : IsRequest (decode (dg.take generatedTables.recvBuf))) (hok : sendOk addr = true) :
+    (loop generatedTables L decode sendOk (eventsOf (pre ++ (dg, addr) :: post)))[pre.length]? =
       some (.answered (sendAll generatedTables L (.peer addr))) := by
-  rw [loop_never_stops L decode hexc]
-  simp [(answers_iff_discover L decode dg addr hdict).2 hreq]
+  rw [loop_never_stops L decode sendOk hexc]
+  simp [(answers_iff_discover L decode sendOk dg addr hdict hok).2 hreq]
 
 /-- a decoding function that meets the hypotheses and has requests, non-requests and errors -/
 example : ∃ decode : Bytes → Except Exc JTop,
@@ -261,16 +285,17 @@ Spec's `RunOK`, the very predicate the monitor evaluates on what the real implem
 Hypotheses: the interface schemes are those of the server's table and the ports are TCP port numbers;
 `hexc`, `hdict` as above. -/
 theorem run_satisfies_spec {α : Type} [DecidableEq α] (id version : Str) (description : Option Str)
-    (ifaces : List Iface) (startup : Bool) (decode : Bytes → Except Exc JTop) (dgs : List (Bytes × α))
+    (ifaces : List Iface) (startup : Bool) (decode : Bytes → Except Exc JTop) (sendOk : α → Bool)
+    (dgs : List (Bytes × α))
     (hschemes : ∀ i ∈ ifaces, i.scheme ∈ Generated.C19.serverSchemes)
     (hports : ∀ i ∈ ifaces, i.port ≤ maxPort)
     (hexc : ∀ b e, decode b = .error e → e = .unicodeDecodeError ∨ e = .jsonDecodeError ∨ e = .valueError)
     (hdict : ∀ b items, decode b = .ok (.obj items) → (items.map (·.1)).Nodup) :
-    RunOK (nodeOf id version description ifaces) startup
+    RunOK (nodeOf id version description ifaces) startup sendOk
       (receivedOf generatedTables.recvBuf decode dgs)
-      (run generatedTables (construct generatedTables id version description ifaces) startup decode (eventsOf dgs)).1
+      (run generatedTables (construct generatedTables id version description ifaces) startup decode sendOk (eventsOf dgs)).1
       (stepsOf generatedTables.recvBuf decode dgs
-        (run generatedTables (construct generatedTables id version description ifaces) startup decode (eventsOf dgs)).2) := by
+        (run generatedTables (construct generatedTables id version description ifaces) startup decode sendOk (eventsOf dgs)).2) := by
   have hdis := disabled_iff_identity_too_long id version description ifaces
   unfold RunOK run announce
   by_cases hfit : IdentityFits (nodeOf id version description ifaces)
@@ -280,11 +305,11 @@ theorem run_satisfies_spec {α : Type} [DecidableEq α] (id version : Str) (desc
       · rfl
     rw [if_pos hfit, hen]
     simp only [Bool.true_and, if_true]
-    rw [loop_never_stops _ decode hexc]
+    rw [loop_never_stops _ decode sendOk hexc]
     have hsteps : stepsOf generatedTables.recvBuf decode dgs
-        (dgs.map (fun d => handleDatagram generatedTables (construct generatedTables id version description ifaces) decode d.1 d.2))
+        (dgs.map (fun d => handleDatagram generatedTables (construct generatedTables id version description ifaces) decode sendOk d.1 d.2))
         = dgs.map (fun d => ⟨d.2, decode (d.1.take generatedTables.recvBuf),
-            sendsOf (handleDatagram generatedTables (construct generatedTables id version description ifaces) decode d.1 d.2)⟩) := by
+            sendsOf (handleDatagram generatedTables (construct generatedTables id version description ifaces) decode sendOk d.1 d.2)⟩) := by
       unfold stepsOf
       induction dgs with
       | nil => rfl
@@ -302,13 +327,19 @@ theorem run_satisfies_spec {α : Type} [DecidableEq α] (id version : Str) (desc
       unfold StepOK
       simp only
       by_cases hreq : IsRequest (decode (d.1.take generatedTables.recvBuf))
-      · rw [if_pos hreq, (answers_iff_discover _ decode d.1 d.2 (hdict _)).2 hreq]
-        exact batch_ok id version description ifaces (.peer d.2) hen hschemes hports
-      · rw [if_neg hreq]
-        have h1 := non_request_not_answered (construct generatedTables id version description ifaces) decode d.1 d.2 (hdict _) hreq
-        cases ho : handleDatagram generatedTables (construct generatedTables id version description ifaces) decode d.1 d.2 with
+      · by_cases hok : sendOk d.2 = true
+        · rw [if_pos ⟨hreq, hok⟩, (answers_iff_discover _ decode sendOk d.1 d.2 (hdict _) hok).2 hreq]
+          exact batch_ok id version description ifaces (.peer d.2) hen hschemes hports
+        · rw [if_neg (fun h => hok h.2)]
+          have hbad : sendOk d.2 = false := by cases h : sendOk d.2 <;> simp_all
+          rw [unreachable_sender_survived _ decode sendOk d.1 d.2 (hdict _) hreq hbad]
+          rfl
+      · rw [if_neg (fun h => hreq h.1)]
+        have h1 := non_request_not_answered (construct generatedTables id version description ifaces) decode sendOk d.1 d.2 (hdict _) hreq
+        cases ho : handleDatagram generatedTables (construct generatedTables id version description ifaces) decode sendOk d.1 d.2 with
         | answered s => exact absurd ho (h1 s)
         | ignored => rfl
+        | unanswerable => rfl
         | died e => rfl
   · have hen : (construct generatedTables id version description ifaces).enabled = false := hdis.2 hfit
     rw [if_neg hfit, hen]
